@@ -38,6 +38,7 @@ type scen struct {
 	conc   int
 	api    string // graph | copy
 	cbErr  bool
+	racing bool // another writer may store a node between this copy's Exists and Push
 }
 
 func jobs(tier string) []driver.Job {
@@ -99,6 +100,12 @@ func jobs(tier string) []driver.Job {
 				}
 			}
 		}
+		// a second writer into the same destination: some pushes meet ErrAlreadyExists after Exists said false
+		if d.Name == "diamond" || d.Name == "dup-layer" || d.Name == "subject-chain" {
+			for _, api := range []string{"graph", "copy"} {
+				out = append(out, mkJob(scen{d: d, root: root, conc: 2, api: api, racing: true}, 1, 0, []int{0}))
+			}
+		}
 		// callback error injection (F=1)
 		cd := 1
 		if th {
@@ -115,7 +122,7 @@ func mkJob(s scen, D, F int, bases []int, shard ...int) driver.Job {
 	if len(shard) == 2 {
 		sh, nsh = shard[0], shard[1]
 	}
-	name := fmt.Sprintf("%s/root=%s/prep=%v/conc=%d/%s/cberr=%v/D%d/bases%v", s.d.Name, s.d.Nodes[s.root].Name, s.prepop, s.conc, s.api, s.cbErr, D, bases) + fmt.Sprintf("/shard%d.%d", sh, nsh)
+	name := fmt.Sprintf("%s/root=%s/prep=%v/conc=%d/%s/cberr=%v/D%d/bases%v", s.d.Name, s.d.Nodes[s.root].Name, s.prepop, s.conc, s.api, s.cbErr, D, bases) + map[bool]string{true: "/racing-writer", false: ""}[s.racing] + fmt.Sprintf("/shard%d.%d", sh, nsh)
 	return driver.Job{Name: name, Run: func(c *driver.Ctx) {
 		var lastW *World
 		c.Explore(driver.Scenario{
@@ -160,6 +167,7 @@ func (s scen) make(last **World) (func(), func(*vs.Result) *driver.Fail) {
 	srcM.Tag(context.Background(), rootDesc, "ref")
 	src := &SrcTarget{Src: Src{W: w, Inner: srcM}, R: srcM, P: srcM}
 	dst := &Dst{W: w, Inner: dstM}
+	w.Racing = s.racing
 	var cbInjected error
 	cb := func(kind string) func(context.Context, ocispec.Descriptor) error {
 		return func(_ context.Context, desc ocispec.Descriptor) error {
@@ -246,6 +254,12 @@ func (s scen) make(last **World) (func(), func(*vs.Result) *driver.Fail) {
 					if len(ts) == 0 || ts[0] > term {
 						return &driver.Fail{Sig: "PostCopy before a successor's terminal notification", Detail: fmt.Sprintf("%s before %s; trace %s", n.Name, sn, tr)}
 					}
+				}
+			} else if w.RacedIn[n.ID] > 0 {
+				// this copy read the node and announced it; losing the race for the final store does not
+				// leave the announcement open: PreCopy is followed by exactly one PostCopy
+				if len(pre) != 1 || len(post)+len(mnt) != 1 || pre[0] > append(post, mnt...)[0] {
+					return &driver.Fail{Sig: "PreCopy without exactly one following PostCopy/OnMounted (the push met content another writer had just stored)", Detail: fmt.Sprintf("%s pre=%d post=%d mounted=%d; trace %s", n.Name, len(pre), len(post), len(mnt), tr)}
 				}
 			} else if len(pre)+len(post)+len(mnt) > 0 && !(s.api == "copy" && n.ID == s.root) {
 				return &driver.Fail{Sig: "copy callbacks on a node that was not transferred", Detail: n.Name + "; trace " + tr}
